@@ -376,10 +376,15 @@ def main(argv=None):
     from concurrent.futures import ProcessPoolExecutor, as_completed
 
     # executor workers are not daemonic, so a worker may own child processes (fresh-process oracle)
-    with ProcessPoolExecutor(nworkers, mp_context=ctx) as pool:
-        futs = [pool.submit(worker, t) for t in tasks]
-        for f in as_completed(futs):
-            results.append(f.result())
+    try:
+        with ProcessPoolExecutor(nworkers, mp_context=ctx) as pool:
+            futs = [pool.submit(worker, t) for t in tasks]
+            for f in as_completed(futs):
+                results.append(f.result())
+    except BaseException:  # noqa: BLE001 - a worker process died (never a verdict)
+        traceback.print_exc()
+        print(f"HARNESS-ERROR property={pid} (worker pool)")
+        return 2
 
     harness_errors = [r["harness_error"] for r in results if r["harness_error"]]
     if harness_errors:
@@ -471,4 +476,12 @@ def main(argv=None):
 
 
 if __name__ == "__main__":
-    sys.exit(main())
+    try:
+        code = main()
+    except SystemExit:
+        raise
+    except BaseException:  # noqa: BLE001
+        traceback.print_exc()
+        print("HARNESS-ERROR (runner)")
+        code = 2
+    sys.exit(code)
